@@ -1,7 +1,7 @@
 SPECIFICATION Spec
 CONSTANTS
   Pairs <- PairsDeep
-  PairsRef <- PairsFull
+  PairsRef <- PairsRefDeep
   Dump = TRUE
 INVARIANT RefShape
 INVARIANT RefIsCPythonOnPlainClasses
